@@ -347,6 +347,8 @@ impl Date {
     /// Get local system date
     #[inline]
     pub fn now() -> Result<Date> {
+        #[cfg(feature = "verif-hooks")]
+        use crate::verif_hooks::Local;
         let now = Local::now().naive_local();
         Date::try_from_ymd(now.year(), now.month(), now.day())
     }
